@@ -861,7 +861,7 @@ func (p *Prog) argCanBe(fn *ssa.Function, q *ssa.Parameter, want bool, set map[*
 
 var ruleSubEval = &Rule{
 	Name: "R-SUBEVAL", NeedSSA: true,
-	Doc: "between the subscript executor and the node dispatcher no function flattens a result sequence (the idiom: applying a nil node to the elements of an array found in the sequence): the sequence whose length is tested for 'a single numeric value' is the raw result of the subscript expression, so `[$.one]` with one = [1] is an error in both modes",
+	Doc: "between the subscript executor and the node dispatcher no function flattens a result sequence (the idiom: applying a nil node to the elements of an array found in the sequence): the sequence whose length is tested for 'a single numeric value' is the raw result of the subscript expression, so `[$.one]` with one = [1] is an error in both modes; the walk over the subscript list is left early only with a failure or where there is no collector, so every subscript is evaluated (and its errors raised) whatever entry point runs",
 	Run: func(p *Prog) *RuleOut {
 		out := newOut("R-SUBEVAL")
 		sub := p.itemArm("ArrayIndexNode")
@@ -897,8 +897,123 @@ var ruleSubEval = &Rule{
 		if len(out.Obs) == 0 {
 			out.ok("no result flattening below the subscript executor", p.pos(sub.Pos()), fnName(sub), fmt.Sprintf("%d functions in scope; the flattening idiom occurs %d time(s) elsewhere in the package", nscope, idiom))
 		}
+		p.everySubscriptEvaluated(out, sub)
 		return out
 	},
+}
+
+// everySubscriptEvaluated: the function that walks the subscript list (it
+// calls Subscripts() of the node) leaves a loop early only with a failure (a
+// failed status, a non-nil error) or where there is no collector (found ==
+// nil: one item is enough for `exists`). A return from inside a loop on any
+// other ground — "the caller has what it wanted" — skips the subscripts that
+// follow, and with them the errors they must raise in both modes.
+func (p *Prog) everySubscriptEvaluated(out *RuleOut, sub *ssa.Function) {
+	var host *ssa.Function
+	cands := []*ssa.Function{sub}
+	for _, c := range p.allCalls(sub) {
+		if sc := c.Call.StaticCallee(); sc != nil && sc.Blocks != nil && fnPkgPath(sc) == pkgExec && isMethodOfExecutor(p, sc) {
+			cands = append(cands, sc)
+		}
+	}
+	for _, f := range cands {
+		for _, c := range p.allCalls(f) {
+			if sc := c.Call.StaticCallee(); sc != nil && sc.Name() == "Subscripts" && fnPkgPath(sc) == pkgAST && host == nil {
+				host = f
+			}
+		}
+	}
+	key := "every subscript of the list is evaluated"
+	if host == nil {
+		out.undecided(key, p.pos(sub.Pos()), fnName(sub), "anchor unresolved: the function that calls Subscripts() of the node")
+		return
+	}
+	// blocks inside a loop: those that can reach themselves
+	inLoop := map[*ssa.BasicBlock]bool{}
+	for _, b := range host.Blocks {
+		seen := map[*ssa.BasicBlock]bool{}
+		stack := append([]*ssa.BasicBlock(nil), b.Succs...)
+		for len(stack) > 0 {
+			x := stack[len(stack)-1]
+			stack = stack[:len(stack)-1]
+			if seen[x] {
+				continue
+			}
+			seen[x] = true
+			if x == b {
+				inLoop[b] = true
+				break
+			}
+			stack = append(stack, x.Succs...)
+		}
+	}
+	coll := p.collectorParam(host)
+	okFacts := func(fs []Fact) bool {
+		for _, f := range fs {
+			switch c := f.Cond.(type) {
+			case *ssa.Call:
+				if f.Truth && p.isFailedMethod(c.Call.StaticCallee()) {
+					return true
+				}
+			case *ssa.BinOp:
+				if c.Op != token.EQL && c.Op != token.NEQ {
+					continue
+				}
+				x, y := c.X, c.Y
+				if isNilConst(x) {
+					x, y = y, x
+				}
+				if isNilConst(y) {
+					isNil := (c.Op == token.EQL) == f.Truth
+					if isErrorType(x.Type()) && !isNil {
+						return true
+					}
+					if coll != nil && x == ssa.Value(coll) && isNil {
+						return true
+					}
+				}
+				if k, ok := constInt(y); ok && types.Identical(x.Type(), p.A.StatusType) && k == constOf(p.A.StatusFailed) && (c.Op == token.EQL) == f.Truth {
+					return true
+				}
+			}
+		}
+		return false
+	}
+	n, bad := 0, ""
+	for _, r := range returnsOf(host) {
+		b := r.Instr.Block()
+		// a return reached from inside a loop: its block or one of its ways in
+		var ways [][]Fact
+		if inLoop[b] {
+			ways = append(ways, factsAt(b))
+		} else {
+			for _, pr := range b.Preds {
+				// (the loop's own end — the edge out of its header — is not an
+				// early exit)
+				header := false
+				for _, q := range pr.Preds {
+					if pr.Dominates(q) {
+						header = true
+					}
+				}
+				if inLoop[pr] && !header {
+					ways = append(ways, edgeFacts(pr, succIndex(pr, b)))
+				}
+			}
+		}
+		for _, fs := range ways {
+			n++
+			if !okFacts(fs) && bad == "" {
+				bad = p.pos(r.Instr.Pos())
+			}
+		}
+	}
+	out.Counts["early_exits_of_the_subscript_loop"] = n
+	if bad != "" {
+		out.viol(key, bad, fnName(host), "the walk over the subscripts is left at "+bad+" on a ground other than a failure or a missing collector: the subscripts that follow are never evaluated, so `First` (or whoever made the list say it has enough) gets an item where Query reports that a later subscript is not a single number within range")
+	} else {
+		out.ok(key, p.pos(host.Pos()), fnName(host), fmt.Sprintf("%d ways out of the loops, each with a failure or without a collector", n))
+	}
 }
 
 func init() { register(ruleSubEval) }
